@@ -2,6 +2,7 @@ import UscxmlVerif.Spec.Legal
 import UscxmlVerif.Model.Fast
 import UscxmlVerif.Proofs.CfgInv
 import UscxmlVerif.Proofs.Root
+import UscxmlVerif.Proofs.ExitClosed
 /-!
 # C02 — the active configuration is legal after every micro-step (the part that needs no assumption)
 
@@ -37,6 +38,20 @@ theorem root_is_never_exited_partial (eng : Engine) (c : Chart) (e : EState) (h 
   cases eng
   · exact Proofs.Root.large_step_root c e h
   · exact Proofs.Root.fast_step_root c e h
+
+/-- **partial** (clause 4 of `legal`, the exit half): on every coherent chart numbered in pre-order - in particular `flatten` of every
+well-formed document - removing the exit set LargeMicroStep computed from a parent-closed configuration leaves a parent-closed
+configuration: exiting never orphans a state. (The entry half depends on the history bookkeeping, where `hist-shared` is a
+counter-example for the code as it stands.) -/
+theorem exiting_never_orphans_partial (d : Doc) (late : Bool) (hwf : Proofs.Flatten.WFDoc d = true) (hroot : d.kind = .scxml)
+    (config : List Nat) (ev : Option String) (pf : List Nat) (xs : XS)
+    (hcfg : Proofs.Struct.ConfigOk (flatten d late) config) (hclosed : Proofs.ExitClosed.ParentClosed (flatten d late) config)
+    (hplain : ∀ i ∈ (Large.selectLoop (flatten d late) config ev pf { x := xs }).transSet,
+      Properties.C05.plainTrans (flatten d late) (Model.Tables.tr (flatten d late) i) = true) :
+    Proofs.ExitClosed.ParentClosed (flatten d late)
+      (config.filter (fun s => !(Large.selectLoop (flatten d late) config ev pf { x := xs }).exitSet.contains s)) :=
+  Proofs.ExitClosed.exit_keeps_parents (flatten d late) (Proofs.Flatten.coherent_flatten d late hwf hroot)
+    (Proofs.Subtree.intervalOK_flatten d late hwf hroot) config ev pf xs hcfg hclosed hplain
 
 /-- the full statement is false of the code as it stands (recorded finding `hist-shared`): a configuration the engines
 reach on a chart with nested histories holds two children of a compound state. The witness is replayed on the compiled
